@@ -290,3 +290,28 @@ Example gr_check_ok : gr_check = true.
 Proof. vm_compute. reflexivity. Qed.
 Example gr_vs_wf : wf_spelling gr_vs /\ admits OGe gr_vs.
 Proof. unfold wf_spelling, gr_vs; cbn. repeat split; auto; cbn; auto. Qed.
+
+(* " Foo [a] >=1.0a-1 ; os_name=='a' " satisfies every hypothesis of Requirement_render_pep508: the clause is given by its text only
+   (carried by a BArb node), its version by the non-greedy tree gr_vs, the marker by a derivation in the marker grammar *)
+Definition gr_mt : list N := [111;115;95;110;97;109;101] ++ [] ++ [61;61] ++ [] ++ (39 :: [97] ++ [39]).
+Definition gr_m : list elem := [Item (SVar (norm_var [111;115;95;110;97;109;101])) [61;61] (SVal [97])].
+Definition gr_sp : rq_spelled :=
+  {| rs_w0 := [32]; rs_name := [70;111;111]; rs_w1 := [32]; rs_extras := Some ([], [([], [97], [])]); rs_w2 := [32];
+     rs_body := SB_clauses None [([], {| c_op := OGe; c_ws := []; c_body := BArb (render gr_vs) |}, [32])];
+     rs_w3 := []; rs_marker := Some ([32] ++ gr_mt ++ [32]) |}.
+Ltac gr_sep := intros H1 H2; first [discriminate H1 | discriminate H2 | vm_compute in H1; discriminate H1 | vm_compute in H2; discriminate H2].
+Example gr_sp_wf : rq_wf_g gr_sp (Some gr_m) /\ rq_lits_ok (Some gr_m) /\
+  rq_render gr_sp = [32;70;111;111;32;91;97;93;32;62;61;49;46;48;97;45;49;32;59;32;111;115;95;110;97;109;101;61;61;39;97;39;32].
+Proof.
+  split; [|split; reflexivity]. unfold rq_wf_g, gr_sp. cbn [rs_w0 rs_name rs_w1 rs_extras rs_w2 rs_body rs_w3 rs_marker rq_wf_body_g rq_no_d7 rq_marker_grammar].
+  repeat split; try reflexivity.
+  - constructor; [split; reflexivity|constructor].
+  - constructor; [|constructor]. split; [reflexivity|]. unfold rq_clause_g. cbn [rq_item_val fst snd c_op c_ws c_body r_body].
+    split; [reflexivity|]. left. exists gr_vs. destruct gr_vs_wf as [W A]. split; [exact W|]. repeat split; auto.
+  - exists gr_mt, [32], [32]. repeat split; try reflexivity. apply ROne. unfold gr_mt.
+    apply (RItem (SVar (norm_var [111;115;95;110;97;109;101])) [111;115;95;110;97;109;101] [61;61] [61;61] (SVal [97]) (39 :: [97] ++ [39]) [] []);
+      try reflexivity; try gr_sep.
+    + apply RVar. vm_compute. tauto.
+    + apply RSym. vm_compute. tauto.
+    + apply RVal; [now right | reflexivity].
+Qed.
